@@ -256,6 +256,9 @@ func c13Judge(g c13Graph, run *c13Run) []c13Viol {
 				add("result:error-without-visitor-error", "walk returned %s although no visitor failed", run.Ret)
 			}
 			for v := range exp {
+				if run.ExtFired {
+					break // the caller cancelled its own context: outside the property, nil with unvisited services is allowed
+				}
 				if started[v] != 1 {
 					add("visit:missing", "walk returned nil but v%d was visited %d times", v, started[v])
 				}
@@ -476,6 +479,11 @@ func runC13(ctx *core.Ctx) {
 						both(c13Args{c13Graph: c13Graph{N: n, Edges: es, Reverse: rev, Limit: lim}, Errs: errs, Mode: "dfs", Budget: ctx.Pick(200, 6000)})
 						ctx.Count("full-dfs")
 					}
+					// the caller cancels its own context at every possible point (outside the property: only the model tie,
+					// once / order / bound / return-after-all are judged)
+					both(c13Args{c13Graph: c13Graph{N: n, Edges: es, Reverse: rev, Limit: lim, ExtCancel: true}, Mode: "dfs", Budget: ctx.Pick(150, 6000)})
+					both(c13Args{c13Graph: c13Graph{N: n, Edges: es, Reverse: rev, Limit: lim, ExtCancel: true}, Mode: "random", Seed: ctx.Rng.Int63n(1 << 30), Budget: 10})
+					ctx.Count("external-cancel")
 				}
 			}
 		}
@@ -526,6 +534,10 @@ func runC13(ctx *core.Ctx) {
 					errs = append(errs, v)
 				}
 			}
+		}
+		if ctx.Rng.Intn(5) == 0 {
+			g.ExtCancel = true
+			ctx.Count("external-cancel")
 		}
 		mode := []string{"random", "pct", "completion"}[ctx.Rng.Intn(3)]
 		both(c13Args{c13Graph: g, Errs: errs, Mode: mode, Policy: "random", Seed: ctx.Rng.Int63n(1 << 30), Budget: 8})
